@@ -1,9 +1,9 @@
-\* generated by mkbridgeapicfg.sh - C12 exhaustive, joint L1/L2 histories (quick): 2 bridges per network, 4 leaves, 4 blocks, 2 verified batches of 2 rollups
+\* generated by mkbridgeapicfg.sh - C12 exhaustive, joint L1/L2 histories (quick): 2 bridges per network, 3 leaves, 4 blocks, 2 verified batches of 2 rollups (skipped ones included)
 CONSTANTS
   H = 2
   MaxDeps = 2
   MaxL2 = 2
-  MaxInfos = 4
+  MaxInfos = 3
   MaxBlocks = 4
   MaxVer = 2
   Ours = 2
